@@ -142,11 +142,36 @@ func checkC06(c *Check) {
 			if sc == nil || sc.String() != "(*regexp.Regexp).SubexpIndex" {
 				return
 			}
-			nidx++
-			g := regexGlobalOf(cl.Call.Args[0])
-			n, isC := constStr(cl.Call.Args[1])
-			rv := rx[g]
-			c.Cond(rv != nil && isC && rv.HasGroup(n), "group-exists", fmt.Sprintf("%s.SubexpIndex(%q) in %s", g, n, fn.Name()), p.InstrPos(in), "group exists", "no such group in the pattern: the field is never extracted")
+			// the pattern and the group name, directly or (in a helper taking
+			// them as parameters) per static call site of the helper
+			var ctxs []*Resolver
+			_, direct := constStr(cl.Call.Args[1])
+			if direct && regexGlobalOf(cl.Call.Args[0]) != "" {
+				ctxs = append(ctxs, NewResolver(p))
+			} else {
+				for _, caller := range p.AllRepoFuncs() {
+					for _, ci := range callsIn(caller) {
+						if staticCallee(ci.Common()) == fn {
+							ctxs = append(ctxs, NewResolver(p).Bind(fn, ci))
+						}
+					}
+				}
+				if len(ctxs) == 0 {
+					ctxs = append(ctxs, NewResolver(p))
+				}
+			}
+			for _, cr := range ctxs {
+				nidx++
+				o := cr.Of(cl)
+				g := regexGlobalOfArg(o, 0)
+				n, isC := callArgOrg(o, 1).ConstString()
+				rv := rx[g]
+				where := fn.Name()
+				if s := cr.Site[fn]; s != nil {
+					where += " called from " + s.Parent().Name() + " at " + p.InstrPos(s)
+				}
+				c.Cond(rv != nil && isC && rv.HasGroup(n), "group-exists", fmt.Sprintf("%s.SubexpIndex(%q) in %s", g, n, where), p.InstrPos(in), "group exists", "no such group in the pattern: the field is never extracted")
+			}
 		})
 	}
 	c.Floor("SubexpIndex calls", 40, nidx)
